@@ -147,6 +147,26 @@ def m_wrapping(op):
     return f
 
 
+def m_rotate(left):
+    """uN::rotate_left / rotate_right: with a constant count the result is a permutation of the operand's bits"""
+    def f(I, st, args, dest_ty, *r):
+        a, n = args[0], args[1]
+        if a.kind != "int":
+            return TopV(dest_ty, a.deps() | n.deps())
+        if n.kind == "int" and n.is_const():
+            w = a.w
+            k = n.lo % w
+            if not left:
+                k = (w - k) % w
+            bits = tuple(a.bits[(i - k) % w] for i in range(w))
+            if k == 0:
+                return a
+            tlo, thi = M.type_range(a.ty)
+            return IntV(a.ty, bits, tlo, thi, None, False, a.lineage)
+        return IntV.top(a.ty, a.deps() | n.deps())
+    return f
+
+
 def m_to_bytes(little):
     """iN::to_le_bytes / to_be_bytes: byte k is bits 8k..8k+7 of the value"""
     def f(I, st, args, dest_ty, *r):
@@ -1009,6 +1029,8 @@ MODELS = [(re.compile(p), f) for p, f in [
     (r"num::<impl [iu]\w+>::checked_mul$", m_checked("Mul")),
     (r"num::<impl [iu]\w+>::saturating_sub$", m_saturating("Sub")),
     (r"num::<impl [iu]\w+>::saturating_add$", m_saturating("Add")),
+    (r"num::<impl u\w+>::rotate_left$", m_rotate(True)),
+    (r"num::<impl u\w+>::rotate_right$", m_rotate(False)),
     (r"::wrapping_mul$", m_wrapping("Mul")),
     (r"convert::TryFrom<.*>>::try_from$|convert::TryInto<.*>>::try_into$|num::<impl (std::|core::)?convert::TryFrom<[iu]\w+> for [iu]\w+>::try_from$", m_try_from),
     (r"::wrapping_add$", m_wrapping("Add")),
